@@ -79,6 +79,10 @@ def reline(tree, rng, noline_ok):
     The real compiler then emits line tables that source text alone rarely produces."""
     import ast
     line = [rng.choice([1, 1, 5, 300])]
+    original = {}
+    for n in ast.walk(tree):
+        if hasattr(n, "lineno"):
+            original[id(n)] = n.lineno
 
     def visit_body(body):
         for st in body:
@@ -89,12 +93,12 @@ def reline(tree, rng, noline_ok):
             new = line[0]
             if noline_ok and rng.random() < 0.04 and not isinstance(st, (ast.FunctionDef, ast.ClassDef, ast.AsyncFunctionDef)):
                 new = -1
-            old = getattr(st, "lineno", None)
+            old = original.get(id(st))
             for n in ast.walk(st):
                 if hasattr(n, "lineno") and not (n is not st and isinstance(n, ast.stmt)):
-                    # keep the shape of multi-line expressions (offset from the statement's line)
-                    off = (n.lineno - old) if (old is not None and new != -1 and rng.random() < 0.7) else 0
-                    n.lineno = new + off if new != -1 else -1
+                    # keep the shape of multi-line expressions (offset from the statement's original line)
+                    off = (original.get(id(n), old) - old) if (old is not None and new != -1 and rng.random() < 0.7) else 0
+                    n.lineno = max(1, new + off) if new != -1 else -1
                     if hasattr(n, "end_lineno"):
                         n.end_lineno = n.lineno
             for field in ("body", "orelse", "finalbody"):
